@@ -12,7 +12,8 @@ OPERATION = ".google.longrunning.Operation"
 RULE = ("APIs from harness/gv/props/flatapi.py: main package (proto-plus), optionally a dependency package (plain protobuf classes; "
         "_pb2 modules synthesised from the FileDescriptorProto) or a sub-package; services with unary, server-, client- and "
         "bidi-streaming RPCs, void RPCs, requests/responses from the package or the dependency, RPC names that need the "
-        "transport-safe or keyword suffix, a paged and a long-running RPC, with and without add-iam-methods and mixins. "
+        "transport-safe or keyword suffix, responses merely named Empty (own package, nested, sub-package, dependency; not void), "
+        "a paged and a long-running RPC, with and without add-iam-methods and mixins. "
         "For each RPC and each of the sync and asyncio clients: the request given as message, as dict and omitted (unary) or a "
         "stream of 0..3 messages (client-streaming), random request and reply valuations, 0..3 replies for server-streaming. "
         "One case = (API, RPC, client, spelling, request bytes, reply bytes); distinct = distinct canonical JSON of these; "
@@ -82,6 +83,21 @@ def make_api(r, shape, *, add_iam=False, mixins=False, collide=False):
         if shape == "dep":
             svc.rpc("PullThing", other_req.fqn, main_resp.fqn, sigs=["name"])
             svc.rpc("Class", other_req.fqn, main_resp.fqn, cs=True)
+        # responses whose message is merely NAMED Empty (with fields) are not void: only google.protobuf.Empty is.
+        # In the API's package, nested in another message, and in the sub-package / dependency package when there is one.
+        own_empty = api.main.message("Empty")
+        own_empty.field("revision", 1, "int64").field("note", 2, "string")
+        nested_empty = main_resp.nested("Empty")
+        nested_empty.field("revision", 1, "int64").field("tags", 2, "string", repeated=True)
+        svc.rpc("StampThing", r.choice(main_req).fqn, own_empty.fqn)
+        svc.rpc("WatchStamp", r.choice(main_req).fqn, own_empty.fqn, ss=True)
+        svc.rpc("PushStamp", r.choice(main_req).fqn, own_empty.fqn, cs=True)
+        svc.rpc("NestThing", r.choice(main_req).fqn, nested_empty.fqn)
+        if shape in ("dep", "sub"):
+            far_empty = (api.dep if shape == "dep" else api.sub).message("Empty")
+            far_empty.field("revision", 1, "int64").field("flag", 2, "bool")
+            svc.rpc("FarStamp", r.choice(main_req).fqn, far_empty.fqn)
+            svc.rpc("FarWatch", U.EMPTY, far_empty.fqn, ss=True)
         # a paged and a long-running RPC (their wrappers are C07's / C08's business; here: which entry they call, what they pass)
         lreq = api.main.message("ListWidgetsRequest")
         lreq.field("parent", 1, "string").field("page_size", 2, "int32").field("page_token", 3, "string")
@@ -499,6 +515,7 @@ class ApiRun:
                               "response-" + ("pb2" if not self.idx.proto_plus_pkg(self.idx.package_of(m.output_type)) else "proto-plus")]
                      + (["dependency-request+api-response"] if (not self.idx.proto_plus_pkg(self.idx.package_of(m.input_type))
                                                                    and self.idx.package_of(m.output_type) == fp.package) else [])
+                     + (["response-named-Empty-but-not-google.protobuf.Empty"] if (m.output_type.endswith(".Empty") and m.output_type != U.EMPTY) else [])
                      + (["keyword-or-unsafe-rpc-name"] if self.facts["services"][s.name]["methods"][j]["safe_snake"].endswith("_") else [])
                      + (["safe-name-suffix"] if self.facts["services"][s.name]["methods"][j]["safe_snake"].endswith("_") else []))
             if not o["ok"] and o.get("stage") == "import":
@@ -577,6 +594,10 @@ class ApiRun:
                     ctx.violation(f"{s.name}.{m.name} ({variant}): Empty response but the client returned {resv.get('kind')}", case, known)
                 continue
             items = resv["items"] if m.server_streaming else [resv]
+            if not m.server_streaming and resv.get("kind") == "none":
+                ctx.violation(f"{s.name}.{m.name} ({variant}): the client returned None although the response type is {m.output_type[1:]} "
+                              f"(not google.protobuf.Empty) and the server sent a reply", case, known)
+                continue
             if any(it.get("kind") != "msg" for it in items):
                 ctx.violation(f"{s.name}.{m.name} ({variant}): returned value is not a message: {[it.get('kind') for it in items]}", case, known)
                 continue
@@ -752,6 +773,8 @@ def write_corpus():
     items.append(("w_cross_dotted", witness_api("cross_dotted"), 0, None))
     req, _ = make_api(env.rng("C03-w", 4), "dep")
     items.append(("w_dep_request", req, 4, None))
+    req, _ = make_api(env.rng("C03-w", 5), "sub")
+    items.append(("w_named_empty_sub", req, 5, None))
     for tag, req, ri, y in items:
         with open(os.path.join(CORPUS, tag + ".json"), "w") as f:
             json.dump({"tag": tag, "request_b64": apigen.req_b64(req), "rindex": ri, "service_yaml": y}, f, indent=1)
@@ -762,7 +785,7 @@ def plan(ctx):
     for name in sorted(os.listdir(CORPUS)) if os.path.isdir(CORPUS) else []:
         c = json.load(open(os.path.join(CORPUS, name)))
         jobs.append((c["tag"], apigen.req_from_b64(c["request_b64"]), c.get("rindex", 0), c.get("service_yaml")))
-    ctx.oblige("corpus: the 5 witness APIs of corpus/C03 are present", len(jobs) >= 5, f"{len(jobs)} found", "build")
+    ctx.oblige("corpus: the 6 witness APIs of corpus/C03 are present", len(jobs) >= 6, f"{len(jobs)} found", "build")
     n = ctx.n(7, 90)
     i = made = 0
     while made < n and i < 4 * n:
